@@ -31,4 +31,6 @@ type TxPool interface {
 	GetTxs(time uint32, size int) types.Transactions
 	/* 收到一笔新的交易 */
 	AddTx(tx *types.Transaction) error
+	/* 从交易池中删除交易 */
+	DelTxs(txs types.Transactions)
 }
